@@ -26,7 +26,7 @@ C_LIGHT = 299792458.0
 
 def REQUIRED(tier):
     return ["kernel_direct", "filterbank_fold", "timeseries_fold", "pulse_train", "conservation_checks", "cell_count_checks", "gulp_identity_checks",
-            "regime:gulp<2*maxdelay", "regime:nbands_not_dividing", "regime:accel!=0", "regime:multi_block", "canary_audits", "regime:multi_file_input", "long_folds", "pulse_train_edge_bins"]
+            "regime:gulp<2*maxdelay", "regime:nbands_not_dividing", "regime:accel!=0", "regime:multi_block", "canary_audits", "regime:multi_file_input", "long_folds", "pulse_train_edge_bins", "regime:nbands>nchans", "regime:small_accel_long_fold"]
 
 
 def cases(tier, seed):
@@ -95,6 +95,9 @@ def _long(case, ctx):
     period = float(rng.uniform(5, 300)) * tsamp * (1 + 1e-3 * rng.random())
     nbins, nints = int(rng.integers(8, 65)), int(rng.integers(1, 9))
     accel = float(rng.choice([0.0, 0.0, 25.0, -300.0]))
+    if case["seed"] % 2:      # accelerations that change the phase by far less than a bin per sample but by bins over the whole observation
+        accel = float([0.8, 4.0, -2.5][case["seed"] // 2 % 3])
+        ctx.count("regime:small_accel_long_fold")
     x = rng.integers(0, 16, size=N).astype(np.float32)
     one = dict(case, geom={"N": N, "tsamp": tsamp, "period": period, "nbins": nbins, "nints": nints, "accel": accel})
     ctx.evaluated(); ctx.count("long_folds")
@@ -244,6 +247,28 @@ def run_case(case, ctx):
             nd = int(np.sum(~((c == c0) | (np.isnan(c) & np.isnan(c0)))))
             ctx.violation("gulp-dependence", f"cube for gulp={g} differs from gulp={g0} in {nd} cells (maxdelay={md})", one)
             return
+
+    # ---- more sub-bands requested than there are channels (the default of 32 on a narrow file): one band per channel, or a refusal
+    if N // (nints * nbins) >= 10:
+        sB, cB, aB = oracle_cube(Xf, delays.astype(np.int64), nbins, nints, nch, ts32, p32, a32, N)
+        with np.errstate(all="ignore"):
+            wB = sB / cB
+        for kw in ({"nbands": nch + 1 + int(rng.integers(0, 40))}, {} if nch < 32 else {"nbands": 2 * nch}):
+            ctx.evaluated(); ctx.count("regime:nbands>nchans")
+            try:
+                with np.errstate(all="ignore"):
+                    fdB = fil.fold(period, dm, accel=accel, nbins=nbins, nints=nints, gulp=gulps[0], quiet=True, description="v", **kw)
+            except ValueError:
+                ctx.count("nbands>nchans_refused")
+                continue
+            except Exception as exc:  # noqa: BLE001
+                ctx.violation(f"fold-raised:{type(exc).__name__}@{exc_site(exc)}", f"Filterbank.fold({kw or 'default nbands'}) on {nch} channels raised {fmt_exc(exc)}", one)
+                return
+            cB_ = np.asarray(fdB.data)
+            okB = cB_.shape == (nints, nch, nbins) and np.array_equal(np.isnan(cB_), cB == 0) and np.allclose(cB_[cB > 0], wB[cB > 0], rtol=2e-7, atol=0)
+            if not okB and not aB:
+                ctx.violation("cube-values[nbands>nchans]", f"Filterbank.fold({kw or 'default nbands=32'}) on {nch} channels: cube shape {cB_.shape}, expected one band per channel {(nints, nch, nbins)} holding the phase-model means", one)
+                return
 
     # ---- (iii) TimeSeries.fold on the first channel
     ctx.evaluated(); ctx.count("timeseries_fold")
